@@ -382,11 +382,54 @@ v("c14-validator-wrong-separator", "C14", "C14.g", [(MGR, "\tif strings.Contains
 v("c14-n-validate-in-caller", "C14", "none", [(MGR, "func (m *Manager) createTable(name string) (Table, error) {\n\tif err := validateTableName(name); err != nil {\n\t\treturn Table{}, err\n\t}\n", "func (m *Manager) createTable(name string) (Table, error) {\n"), (MGR, "func (m *Manager) CreateTable(name string) (Table, error) {\n", "func (m *Manager) CreateTable(name string) (Table, error) {\n\tif err := validateTableName(name); err != nil {\n\t\treturn Table{}, err\n\t}\n")], "the check moves to the only caller")
 v("c14-n-inline-separator-test", "C14", "none", [(MGR, "func (m *Manager) Restore(name string, reader io.Reader) error {\n\tif err := validateTableName(name); err != nil {\n\t\treturn err\n\t}\n", "func (m *Manager) Restore(name string, reader io.Reader) error {\n\tif strings.ContainsRune(name, '/') {\n\t\treturn serrors.ErrInvalidTableName\n\t}\n")])
 
+
+# ---------------- rules added after the third round of sub-agent changes ----------------
+FSMGO = "storage/table/fsm/fsm.go"
+v("c03-batch-cut-short", "C03", "C03.f", [(FSMGO, "\t\tidx = updates[i].Index\n\t}", "\t\tidx = updates[i].Index\n\t\tif updateResult == ResultFailure {\n\t\t\tbreak\n\t\t}\n\t}")])
+v("c01-batch-cut-short", "C01", "C01.i", [(FSMGO, "\t\tidx = updates[i].Index\n\t}", "\t\tidx = updates[i].Index\n\t\tif updateResult == ResultFailure {\n\t\t\tbreak\n\t\t}\n\t}")])
+v("c03-last-entry-skipped", "C03", "C03.f", [(FSMGO, "\tfor i := 0; i < len(updates); i++ {\n\t\tcmd, err := parseCommand(ctx, updates[i])", "\tfor i := 0; i < len(updates)-1; i++ {\n\t\tcmd, err := parseCommand(ctx, updates[i])")])
+v("c03-dummy-not-handled", "C03", "C03.f", [(FSMGO, "\t\tupdateResult, res, err := cmd.handle(ctx)\n", "\t\tif _, noop := cmd.(commandDummy); noop {\n\t\t\tcontinue\n\t\t}\n\t\tupdateResult, res, err := cmd.handle(ctx)\n")], "a no-op that is not handled leaves its entry without result; harmless for content but the rule demands the step")
+v("c03-n-range-loop", "C03", "none", [(FSMGO, "\tfor i := 0; i < len(updates); i++ {\n\t\tcmd, err := parseCommand(ctx, updates[i])", "\tfor i := range updates {\n\t\tcmd, err := parseCommand(ctx, updates[i])")])
+v("c17-token-prefix-compare", "C17", "C17.d", [("cmd/common.go", "\t\tif token != t {", "\t\tif len(t) == 0 || len(t) > len(token) || token[:len(t)] != t {")], "agent change C17-m1 in its plain form")
+v("c17-n-constant-time-whole", "C17", "none", [("cmd/common.go", "\t\tif token != t {", "\t\tif subtle.ConstantTimeCompare([]byte(token), []byte(t)) != 1 {"), ("cmd/common.go", "import (\n\t\"context\"\n", "import (\n\t\"context\"\n\t\"crypto/subtle\"\n")])
+v("c17-peer-check-extra-condition", "C17", "C17.e", [("security/tls.go", "\tif verifyCertificate != nil {", "\tif verifyCertificate != nil && t.ClientCertAuth {")], "agent change C17-m3")
+VIEW = "storage/cluster/view.go"
+v("c19-merge-early-return", "C19", "C19.a", [(VIEW, "\tif current.ConfigChangeIndex < update.ConfigChangeIndex {\n\t\tcurrent.Replicas = update.Replicas", "\tif update.ConfigChangeIndex < current.ConfigChangeIndex {\n\t\treturn current\n\t}\n\tif current.ConfigChangeIndex < update.ConfigChangeIndex {\n\t\tcurrent.Replicas = update.Replicas")], "agent change C19-m1")
+v("c19-merge-needs-current-leader", "C19", "C19.a", [(VIEW, "\t\tif current.LeaderID == noLeader || update.Term > current.Term {", "\t\tif update.Term > current.Term {")], "a first leader with term 0 is never learnt")
+v("c19-remote-state-filtered", "C19", "C19.c", [("storage/cluster/cluster.go", "\tc.shardView.update(remote.ShardView)", "\tupdates := make([]dragonboat.ShardView, 0, len(remote.ShardView))\n\tfor _, sv := range remote.ShardView {\n\t\tif sv.LeaderID != noLeader {\n\t\t\tupdates = append(updates, sv)\n\t\t}\n\t}\n\tc.shardView.update(updates)")], "agent change C19-m3 (simplified)")
+v("c14-reconcile-starts-cluster-id", "C14", "C14.e", [(MGR, "\tfor id, tbl := range start {\n\t\terr = m.startTable(tbl.Name, id)", "\tfor _, tbl := range start {\n\t\terr = m.startTable(tbl.Name, tbl.ClusterID)")], "agent change C14-m2")
+v("c15-versions-per-key", "C15", "C15.d2", [("storage/kv/raft.go", "\t\tupdate.KVPair.Ver = ent.Index\n", "\t\tif cur, err := fsm.store.Get(update.KVPair.Key); err == nil {\n\t\t\tupdate.KVPair.Ver = cur.Ver + 1\n\t\t} else {\n\t\t\tupdate.KVPair.Ver = 1\n\t\t}\n\t\t_ = ent.Index\n")], "agent change C15-m2")
+v("c12-v1-fixed-buffer", "C12", "C12.a", [("storage/table/key/v1.go", "\tbytes := make([]byte, 1+len(k.key))\n\tbytes[0] = byte(k.keyType)\n\tcopy(bytes[1:], k.key)\n\treturn writer.Write(bytes[:])", "\tvar bytes [keyV1BodyLen]byte\n\tbytes[0] = byte(k.keyType)\n\tn := copy(bytes[1:], k.key)\n\treturn writer.Write(bytes[:1+n])")], "agent change C12-m1")
+
 # ---------------- behaviour-preserving refactorings written by sub-agents (neutral/<set>/<n>/patch.diff) ----------------
 def vp(id, prop, expect, patches, note=""):
     V.append({"id": id, "prop": prop, "expect": expect, "note": note, "edits": [], "patch": patches})
 
 NEUTRAL = {
+    'neutral/setC/n1': ['C01', 'C02', 'C03', 'C04', 'C07', 'C08', 'C10', 'C11', 'C12', 'C14', 'C16'],
+    'neutral/setC/n10': ['C13'],
+    'neutral/setC/n11': ['C02', 'C09', 'C10', 'C11', 'C16'],
+    'neutral/setC/n12': ['C18'],
+    'neutral/setC/n2': ['C01', 'C02', 'C04', 'C07', 'C08', 'C10', 'C11', 'C12', 'C14', 'C16'],
+    'neutral/setC/n3': ['C02'],
+    'neutral/setC/n4': ['C01', 'C03', 'C04', 'C09', 'C10', 'C12'],
+    'neutral/setC/n5': ['C01', 'C03', 'C04', 'C09', 'C10', 'C12'],
+    'neutral/setC/n6': ['C07', 'C09', 'C18'],
+    'neutral/setC/n7': ['C03', 'C04', 'C08', 'C18'],
+    'neutral/setC/n8': ['C03', 'C04', 'C08'],
+    'neutral/setC/n9': ['C13', 'C16'],
+    'neutral/setD/n1': ['C05', 'C06'],
+    'neutral/setD/n10': ['C05', 'C06', 'C07', 'C10'],
+    'neutral/setD/n11': ['C18'],
+    'neutral/setD/n12': ['C19'],
+    'neutral/setD/n2': ['C05', 'C06'],
+    'neutral/setD/n3': ['C11'],
+    'neutral/setD/n4': ['C05', 'C15', 'C18'],
+    'neutral/setD/n5': ['C02', 'C09', 'C10', 'C14', 'C16'],
+    'neutral/setD/n6': ['C05', 'C07', 'C14', 'C15'],
+    'neutral/setD/n7': ['C05', 'C07', 'C14', 'C15'],
+    'neutral/setD/n8': ['C17'],
+    'neutral/setD/n9': ['C04', 'C08'],
     'neutral/setA/n1': ['C01', 'C02', 'C03', 'C04', 'C07', 'C08', 'C10', 'C11', 'C12', 'C14', 'C16'],
     'neutral/setA/n10': ['C04'],
     'neutral/setA/n11': ['C12'],
